@@ -1,0 +1,29 @@
+//go:build verif
+
+// Contracts checked by /verif/gowp. This file contains comments only and is compiled only
+// with -tags verif.
+
+package version
+
+// C15 (a package is installed only on a Crossplane its constraint admits): the answer is the
+// semantic-version check of the package's constraint against the running version exactly as it
+// was built in - pre-release suffix included, nothing rounded.
+//@ func (*version.Versioner).GetSemVer
+//@ props C15
+//@ requires v != nil
+//@ let $parsed = result github.com/Masterminds/semver.NewVersion
+//@ site github.com/Masterminds/semver.NewVersion($s)
+//@   assert [C15:the-running-version-is-parsed-as-it-is] $s == v.version
+//@ ensures [C15:running-version-is-the-built-in-version] result == $parsed
+
+//@ func (*version.Versioner).InConstraints
+//@ props C15
+//@ requires v != nil
+//@ let $ver = result (*version.Versioner).GetSemVer
+//@ let $cons = result github.com/Masterminds/semver.NewConstraint
+//@ let $ok = result (semver.Constraints).Check
+//@ site github.com/Masterminds/semver.NewConstraint($s)
+//@   assert [C15:the-packages-constraint-is-parsed-as-given] $s == c
+//@ site (semver.Constraints).Check($cs, $v)
+//@   assert [C15:the-constraint-is-checked-against-the-running-version-unrounded] $v == $ver
+//@ ensures [C15:compatible-iff-the-constraint-admits-the-running-version] err == nil ==> result == $ok
